@@ -259,6 +259,20 @@ def check(ctx):
     okf = sorted(norm(c.func.value) for n, c in fan) == sorted(['self.param_update_callbacks[complete_name]', 'self.group_update_callbacks[element.group]', 'self.all_update_callback']) and \
         all([norm(a) for a in c.args] == ['complete_name', 'value_s'] for n, c in fan) and all(fact_key('element', True) in g.fact_keys_at(n) for n, c in fan)
     ctx.inst('R7', pu, 'fan-out-once-each', okf, 'each of the three fan-outs is called once with (complete_name, value_s): %s' % [norm(c) for n, c in fan])
+    # every answer is passed on: besides "the element exists" a fan-out depends only on whether anybody registered for that name /
+    # group - not on the value (an unchanged value is still the answer to a request somebody is waiting for)
+    extra = {}
+    for n, c in fan:
+        own = norm(c.func.value)
+        for k in g.fact_keys_at(n):
+            if k == fact_key('element', True) or k == fact_key('element is not None', True):
+                continue
+            if k[1] and k[0].endswith(' in self.param_update_callbacks') and own.startswith('self.param_update_callbacks['):
+                continue
+            if k[1] and k[0].endswith(' in self.group_update_callbacks') and own.startswith('self.group_update_callbacks['):
+                continue
+            extra.setdefault(own, []).append(k)
+    ctx.inst('R7', pu, 'fan-out-for-every-answer', okf and not extra, 'conditions on the fan-outs other than "element found" and "somebody registered": %s' % extra)
 
     # ---- R8: FIFO, single consumer --------------------------------------------------------------------
     ini = U.method('__init__')
